@@ -231,6 +231,24 @@ class FoldRules:
                     continue
                 ctx.ob("O2", f"{self.q}/{r.RES}:escape", False,
                        f"the mapping is aliased or passed somewhere the analysis cannot follow: {norm(par)[:80]}", node=par, mod=self.m)
+        # the mapping is a defaultdict: merely *reading* `RES[k]` inserts k with an empty list when k is not a key yet.  Every subscript read -- in the
+        # fold and in the callee that receives the mapping -- must be dominated by a truth test of its key (a non-empty resolution that was
+        # recorded before); a read for a debug line ahead of that test adds the key None with a list that has no full citation in it
+        from .guards import guarded as _guarded
+        sites = [(self.q, f, r.RES)]
+        for n in walk_local(f):
+            if isinstance(n, ast.Call) and isinstance(n.func, ast.Name) and n.func.id in r.resolvers:
+                for i_, a_ in enumerate(n.args):
+                    if isinstance(a_, ast.Name) and a_.id == r.RES:
+                        cal = f"resolve.{r.resolvers[n.func.id]}"
+                        if cal in eff.funcs and i_ < len(eff.funcs[cal].params):
+                            sites.append((cal, eff.funcs[cal].node, eff.funcs[cal].params[i_]))
+        for q_, fn_, nm_ in sites:
+            for sub in [x for x in walk_local(fn_) if isinstance(x, ast.Subscript) and isinstance(x.ctx, ast.Load) and isinstance(x.value, ast.Name) and x.value.id == nm_]:
+                k_ = norm(sub.slice)
+                ctx.ob("O2", f"{q_}/{nm_}[{k_[:30]}]:read-guarded", _guarded(fn_, sub, {k_}),
+                       f"`{norm(sub)[:50]}` reads the defaultdict; unless `{k_[:30]}` was tested truthy first the read itself creates the key",
+                       node=sub, mod=self.m)
         # nothing but `return RES` after the fold
         after = f.body[f.body.index(r.FOLD) + 1:] if r.FOLD in f.body else []
         ok_after = all(isinstance(s, ast.Return) for s in after)
